@@ -8,6 +8,8 @@ never change; **the outcome of a granted request never changes** (a request is t
 
 variable {σ : Type}
 
+namespace Conserve
+
 section helpers
 
 theorem isCond_of_kind {s s' : KState ℚ σ} (hk : ∀ a, (s'.ev a).kind = (s.ev a).kind) (c : EvId) :
@@ -513,3 +515,5 @@ theorem reach_base (body : σ → Resume → Burst ℚ σ) (fuel : Nat) (s0 s : 
     (hr : SafeReach body fuel s0 s) : Base s0 s ∧ WF s := by
   have := Base.crel.reach body fuel s0 s hW hr
   exact ⟨this, this.keepWF hW⟩
+
+end Conserve
